@@ -27,6 +27,8 @@ REWRITES = [
      r"be32_from(\1)", "u32::from_be_bytes(E.try_into().unwrap()) -> be32_from(E) requiring E.len()==4 (the unwrap panics iff len!=4: kept as obligation)"),
     ("R1b", re.compile(r"u64::from_be_bytes\(\s*((?:[^()]|\((?:[^()]|\([^()]*\))*\))*?)\s*\.try_into\(\)\s*\.unwrap\(\),?\s*\)", re.S),
      r"be64_from(\1)", "u64::from_be_bytes(E.try_into().unwrap()) -> be64_from(E) requiring E.len()==8"),
+    ("R1c", re.compile(r"u32::from_be_bytes\(\s*((?:[^()]|\((?:[^()]|\([^()]*\))*\))*?)\s*\)", re.S),
+     r"be32_from_arr(\1)", "u32::from_be_bytes(A) on a [u8; 4] value -> be32_from_arr(A) (same big-endian value as be32_from)"),
     ("R2", re.compile(r"((?:[A-Za-z_][A-Za-z0-9_]*|\((?:[^()]|\([^()]*\))*\))(?:\.[A-Za-z_][A-Za-z0-9_]*(?:\(\))?)*)\.to_be_bytes\(\)"),
      r"to_be_bytes_spec(\1)", "E.to_be_bytes() -> to_be_bytes_spec(E) (u32/u16 via trait)"),
     ("R0-attr", re.compile(r"^[ \t]*#\[(?:default|inline|zeroize\(skip\)|allow\([^\]]*\)|cfg\(any\(test, feature = \"hbs_lms_verif\"\)\)|cfg\(test\))\][ \t]*\n(?:[ \t]*[^\n]*LmsH2[^\n]*\n)?", re.M), "",
